@@ -905,11 +905,12 @@ class Ackermannizer(IdentityDagWalker):
 
     def _generate_implication(self, option1: Sequence[FNode], option2: Sequence[FNode], f: FNode) -> FNode:
         left_conjuncts = set()
+        substitute = self.env.substituter.substitute
         for term1, term2 in zip(option1, option2):
-            if term1.is_function_application():
-                term1 = self._terms_dict[term1]
-            if term2.is_function_application():
-                term2 = self._terms_dict[term2]
+            # Replace every application occurring in the arguments
+            # (also when nested inside other operators)
+            term1 = substitute(term1, self._terms_dict)
+            term2 = substitute(term2, self._terms_dict)
             conjunct = self.mgr.EqualsOrIff(term1, term2)
             left_conjuncts.add(conjunct)
         left = self.mgr.And(left_conjuncts)
